@@ -287,7 +287,11 @@ func TestSim(t *testing.T) {
 		res := execRun(t, sc, simrt.NewTape(seed, run), seed, run, tier, false)
 		if res.RaceFail || simrt.RaceBuild {
 			if txt := readRaceLog(); txt != "" {
-				res.Viol = append(res.Viol, raceSignatures(txt)...)
+				for _, rv := range raceSignatures(txt) {
+					if sc.RaceFilter == nil || sc.RaceFilter(rv.Sig) || strings.HasPrefix(rv.Sig, "INFRA.") {
+						res.Viol = append(res.Viol, rv)
+					}
+				}
 			} else if res.RaceFail {
 				res.Infra = "sub-test failed without a violation or a race report"
 			}
